@@ -562,7 +562,9 @@ func ruleC06(prog *Program, rep *Report) {
 	applyParseResults(rep, sres, map[string]bool{"panic": true, "no-progress": true}, "A-panic", 12)
 	ruleC06Extra(prog, rep)
 	if rep.Tier == "thorough" {
-		mutationSweep(prog, rep, kindsPanic, sweepSize())
+		// a table cell rarely leads to a panic, so nearly every mutant is explored in full (no early exit):
+		// a third of the default sweep keeps the thorough tier within minutes
+		mutationSweep(prog, rep, kindsPanic, (sweepSize()+2)/3)
 	}
 }
 
